@@ -230,7 +230,7 @@ def plan(tier, seed):
                 'define+condition, tal:attributes, tal:content, text/structure fallback, error.type/value probes, '
                 'failing fallback; per evaluation point the solver ranges over {succeeds, raises ValueError, raises a '
                 'custom Exception}; repeat length 0..3/None; on_error_handler call sequence compared; 5 programs with macros between '
-                'handlers and failing points (guard around a use, handler inside a macro around a filled slot, both, a global set before the failure, repeated use) compared with their inlined form; 5 elements with start tags written over several lines, trim_attribute_space on and off: the fallback element's start tag is the one the element itself gets. Outside: error.lineno/offset values (C12 covers '
+                'handlers and failing points (guard around a use, handler inside a macro around a filled slot, both, a global set before the failure, repeated use) compared with their inlined form; 5 elements with start tags written over several lines, trim_attribute_space on and off: the start tag of the fallback element is the one the element itself gets. Outside: error.lineno/offset values (C12 covers '
                 'positions), non-Exception BaseExceptions.' % (len(jobs), 2 if quick else 4)),
         assumptions=['reference: try/except Exception per guarded element, truncate to the element start, fallback = '
                      'start tag with static attributes + value + end tag (vlib/refsem.py from docs/reference.rst)'],
